@@ -323,7 +323,7 @@ fn inner_rgb(
                 ParsedChannels::List(list) => {
                     let args = ArgumentResult {
                         positional: list,
-                        named: BTreeMap::new(),
+                        named: IndexMap::new(),
                         separator: ListSeparator::Comma,
                         span: args.span(),
                         touched: BTreeSet::new(),
